@@ -276,6 +276,8 @@ type gate struct {
 	lastAct  atomic.Int64
 	mu       sync.Mutex
 	guard    *rbGuard
+	osMu         sync.Mutex
+	oneShotAfter map[string]func()
 }
 
 func newGate(inner tikv.Client, id string, tr *Trace, reqSeq *atomic.Int64) *gate {
@@ -423,6 +425,17 @@ func (g *gate) SendRequest(ctx context.Context, addr string, req *tikvrpc.Reques
 	}
 	rf := respFields(req, resp, err)
 	g.trace.add(Event{Kind: "deliver", Client: g.id, ReqID: id, Cmd: req.Type.String(), F: rf})
+	// one-shot hook armed by a helper: runs once after the next request of that command type was answered by the store,
+	// before this client sees the answer (e.g. "the clock jumps while the status check is on its way back")
+	g.osMu.Lock()
+	osh := g.oneShotAfter[req.Type.String()]
+	if osh != nil {
+		delete(g.oneShotAfter, req.Type.String())
+	}
+	g.osMu.Unlock()
+	if osh != nil {
+		osh()
+	}
 	if idx >= 0 {
 		g.plan.mu.Lock()
 		ah := g.plan.after[idx]
